@@ -38,6 +38,10 @@ type parkedG struct {
 	id       int
 	timer    int64 // > 0: a time.Sleep in progress, ends at this instant of the goroutine's own timeline (ns)
 	isSend   bool  // parked in a channel send
+	waits    []ObjID // select: further channels whose readiness wakes the goroutine (receive cases)
+	selIns   *ssa.Select // parked in a select with one send case: the instruction, the case and its channel
+	selCase  int
+	selSend  ObjID
 	runnable bool  // lazy spawn: not started yet, runs when the main thread blocks (FIFO)
 	sendVal  Value
 	parkNext ObjID // allocation counter when parked (objects at or above were allocated later)
@@ -81,6 +85,18 @@ func (e *Engine) blockHere(st *State, fr *Frame, idx int, obj ObjID, what string
 	e.stats.Obligations++
 	label := "deadlock: " + what + " blocks forever"
 	e.reportFailure(st, e.tc.True, "assert", label, pos)
+}
+
+func (p *parkedG) waitsOn(obj ObjID) bool {
+	if p.selIns != nil && p.selSend == obj {
+		return true
+	}
+	for _, w := range p.waits {
+		if w == obj {
+			return true
+		}
+	}
+	return false
 }
 
 func firstRunnable(st *State) *parkedG {
@@ -261,7 +277,7 @@ func (e *Engine) resumeGAt(st *State, g *parkedG, exits *[]exit) []*State {
 func (e *Engine) wake(st *State, obj ObjID, exits *[]exit) []*State {
 	var ids []int
 	for _, p := range st.parked {
-		if p.wait == obj && p.timer == 0 && !p.runnable {
+		if (p.wait == obj || p.waitsOn(obj)) && p.timer == 0 && !p.runnable {
 			ids = append(ids, p.id)
 		}
 	}
@@ -292,7 +308,13 @@ func (e *Engine) wake(st *State, obj ObjID, exits *[]exit) []*State {
 
 func (e *Engine) hasWaiter(st *State, obj ObjID) bool {
 	for _, p := range st.parked {
-		if p.wait == obj && !p.isSend && p.timer == 0 && !p.runnable {
+		recvWait := p.wait == obj
+		for _, w := range p.waits {
+			if w == obj {
+				recvWait = true
+			}
+		}
+		if recvWait && !p.isSend && p.timer == 0 && !p.runnable {
 			return true
 		}
 	}
@@ -301,11 +323,44 @@ func (e *Engine) hasWaiter(st *State, obj ObjID) bool {
 
 func parkedSender(st *State, obj ObjID) *parkedG {
 	for _, p := range st.parked {
-		if p.wait == obj && p.isSend {
+		if (p.wait == obj && p.isSend) || (p.selIns != nil && p.selSend == obj) {
 			return p
 		}
 	}
 	return nil
+}
+
+// behindSend positions a parked sender behind its send (a plain send, or the send case of a select, whose
+// result register is filled in) once a receiver has taken its value.
+func (e *Engine) behindSend(ps *parkedG) *parkedG {
+	g := *ps
+	g.stack = append([]frameCont{}, ps.stack...)
+	if ps.selIns != nil {
+		f := g.stack[0].fr.clone()
+		f.regs[ps.selIns] = e.selectResult(ps.selIns, ps.selCase, e.tc.False, nil)
+		g.stack[0].fr = f
+	}
+	g.stack[0].idx++
+	g.isSend, g.sendVal = false, nil
+	g.selIns, g.selSend, g.waits = nil, 0, nil
+	return &g
+}
+
+// selectResult: the tuple a select yields: index, recvOk, then one value per receive case.
+func (e *Engine) selectResult(x *ssa.Select, chosen int, okV Value, val Value) TupleV {
+	tv := TupleV{e.bv64(int64(chosen)), okV}
+	for i, sc := range x.States {
+		if sc.Dir != types.RecvOnly {
+			continue
+		}
+		et := sc.Chan.Type().Underlying().(*types.Chan).Elem()
+		if i == chosen && val != nil {
+			tv = append(tv, val)
+		} else {
+			tv = append(tv, e.zero(et))
+		}
+	}
+	return tv
 }
 
 // schedSend: ch <- v.
@@ -371,6 +426,12 @@ func (e *Engine) schedRecv(st *State, fr *Frame, idx int, x *ssa.UnOp, exits *[]
 		if n.Handoff > 0 {
 			n.Handoff--
 		}
+		if co.ReadyAt != nil {
+			if st.clock != nil {
+				st.clock = e.tc.Ite(e.tc.BVSlt(st.clock, co.ReadyAt), co.ReadyAt, st.clock)
+			}
+			n.ReadyAt = nil
+		}
 		st.heap[ch.Obj] = &n
 		if x.CommaOk {
 			return TupleV{v, e.tc.True}, true
@@ -393,12 +454,9 @@ func (e *Engine) schedRecv(st *State, fr *Frame, idx int, x *ssa.UnOp, exits *[]
 			}
 		}
 		st.parked = rest
-		g := *ps
-		g.stack = append([]frameCont{}, ps.stack...)
-		g.stack[0].idx++ // behind the send
-		g.isSend, g.sendVal = false, nil
+		g := e.behindSend(ps)
 		var px []exit
-		states := e.resumeGAt(st, &g, &px)
+		states := e.resumeGAt(st, g, &px)
 		*exits = append(*exits, px...)
 		val := ps.sendVal
 		for k, s2 := range states {
@@ -431,7 +489,7 @@ func parkedEqual(a, b []*parkedG) bool {
 			continue
 		}
 		x, y := a[i], b[i]
-		if x.id != y.id || x.wait != y.wait || x.timer != y.timer || x.isSend != y.isSend || x.runnable != y.runnable || len(x.stack) != len(y.stack) || !valEqual(x.sendVal, y.sendVal) {
+		if x.id != y.id || x.wait != y.wait || x.timer != y.timer || x.isSend != y.isSend || x.runnable != y.runnable || len(x.waits) != len(y.waits) || x.selIns != y.selIns || x.selCase != y.selCase || len(x.stack) != len(y.stack) || !valEqual(x.sendVal, y.sendVal) {
 			return false
 		}
 		for l := range x.stack {
@@ -453,4 +511,205 @@ func parkedEqual(a, b []*parkedG) bool {
 		}
 	}
 	return true
+}
+
+// schedSelect: the select statement.  A case is ready when its channel has a buffered value, is closed, has a
+// parked sender (receive cases), or has room / a parked receiver (send cases).  With the deterministic clock on,
+// every ready case has an instant at which it became (or becomes) ready - a time.After channel at its deadline,
+// a parked sender at the sender's own clock, anything else now - and the earliest one is taken (ties: the
+// first in source order), the clock moving on to that instant; without the clock every ready case is explored.
+// Nothing ready: the default case if there is one, otherwise the thread waits on all receive channels.
+func (e *Engine) schedSelect(st *State, fr *Frame, idx int, x *ssa.Select, q *pqueue, exits *[]exit) {
+	c := e.tc
+	type rcase struct {
+		i    int
+		kind int // 1 buffered, 2 closed, 3 parked sender, 4 send: room, 5 send: closed, 6 send: rendezvous
+		at   *Term
+		ch   ChanV
+		ps   *parkedG
+	}
+	var ready []rcase
+	var recvObjs []ObjID
+	handoff := -1
+	for i, sc := range x.States {
+		ch, _ := e.get(fr, sc.Chan).(ChanV)
+		if ch.Obj == 0 {
+			continue // a nil channel is never ready
+		}
+		co := e.obj(st, ch.Obj).(*ChanObj)
+		if sc.Dir == types.RecvOnly {
+			recvObjs = append(recvObjs, ch.Obj)
+			switch {
+			case len(co.Buf) > 0:
+				ready = append(ready, rcase{i: i, kind: 1, at: co.ReadyAt, ch: ch})
+				if co.Handoff > 0 {
+					handoff = len(ready) - 1
+				}
+			case co.Closed:
+				ready = append(ready, rcase{i: i, kind: 2, ch: ch})
+			default:
+				if ps := parkedSender(st, ch.Obj); ps != nil {
+					ready = append(ready, rcase{i: i, kind: 3, at: ps.clock, ch: ch, ps: ps})
+				}
+			}
+		} else {
+			switch {
+			case co.Closed:
+				ready = append(ready, rcase{i: i, kind: 5, ch: ch})
+			case len(co.Buf) < co.Cap:
+				ready = append(ready, rcase{i: i, kind: 4, ch: ch})
+			case e.hasWaiter(st, ch.Obj):
+				ready = append(ready, rcase{i: i, kind: 6, ch: ch})
+			}
+		}
+	}
+	if handoff >= 0 {
+		ready = []rcase{ready[handoff]} // a value handed to this thread by a sender must be taken
+	}
+	result := func(chosen int, okV Value, val Value) TupleV { return e.selectResult(x, chosen, okV, val) }
+	cont := func(s *State, f *Frame, tv TupleV) {
+		f.regs[x] = tv
+		e.execBlock(s, f, idx+1, q, exits)
+	}
+	if len(ready) == 0 {
+		if !x.Blocking {
+			cont(st, fr, result(-1, c.False, nil))
+			return
+		}
+		if st.gdepth > 0 {
+			pg := &parkedG{stack: []frameCont{{fr: fr.clone(), idx: idx}}, id: st.gcur, parkNext: st.next, what: "select"}
+			if len(recvObjs) > 0 {
+				pg.wait, pg.waits = recvObjs[0], recvObjs[1:]
+			}
+			nsend := 0
+			for i, sc := range x.States {
+				if sc.Dir == types.RecvOnly {
+					continue
+				}
+				if ch, _ := e.get(fr, sc.Chan).(ChanV); ch.Obj != 0 {
+					nsend++
+					pg.selIns, pg.selCase, pg.selSend, pg.sendVal = x, i, ch.Obj, e.get(fr, sc.Send)
+				}
+			}
+			if nsend > 1 {
+				panic(unsupported("select that blocks with more than one send case"))
+			}
+			*exits = append(*exits, exit{st: st, kind: exitPark, park: pg})
+			return
+		}
+		e.blockHere(st, fr, idx, 0, "select", x.Pos(), exits)
+		return
+	}
+	take := func(s *State, f *Frame, rc rcase) {
+		sc := x.States[rc.i]
+		co := e.obj(s, rc.ch.Obj).(*ChanObj)
+		if s.clock != nil && rc.at != nil {
+			s.clock = c.Ite(c.BVSlt(s.clock, rc.at), rc.at, s.clock)
+		}
+		switch rc.kind {
+		case 1:
+			n := *co
+			v := co.Buf[0]
+			n.Buf = append([]Value{}, co.Buf[1:]...)
+			if n.Handoff > 0 {
+				n.Handoff--
+			}
+			n.ReadyAt = nil
+			s.heap[rc.ch.Obj] = &n
+			cont(s, f, result(rc.i, c.True, v))
+		case 2:
+			cont(s, f, result(rc.i, c.False, nil))
+		case 3:
+			var ps *parkedG
+			var rest []*parkedG
+			for _, p := range s.parked {
+				if ps == nil && p.id == rc.ps.id {
+					ps = p
+				} else {
+					rest = append(rest, p)
+				}
+			}
+			if ps == nil {
+				panic(unsupported("select: the parked sender has gone"))
+			}
+			s.parked = rest
+			g := e.behindSend(ps)
+			var px []exit
+			states := e.resumeGAt(s, g, &px)
+			*exits = append(*exits, px...)
+			for k, s2 := range states {
+				f2 := f
+				if k < len(states)-1 {
+					f2 = f.clone()
+				}
+				cont(s2, f2, result(rc.i, c.True, ps.sendVal))
+			}
+		case 4, 6:
+			v := e.get(f, sc.Send)
+			n := *co
+			n.Buf = append(append([]Value{}, co.Buf...), v)
+			if rc.kind == 6 {
+				n.Handoff++
+			}
+			s.heap[rc.ch.Obj] = &n
+			states := e.wake(s, rc.ch.Obj, exits)
+			for k, s2 := range states {
+				f2 := f
+				if k < len(states)-1 {
+					f2 = f.clone()
+				}
+				cont(s2, f2, result(rc.i, c.False, nil))
+			}
+		case 5:
+			e.reportPanic(s, c.True, "send on closed channel", sc.Pos)
+			*exits = append(*exits, exit{st: s, kind: exitPanic, pmsg: "send on closed channel"})
+		}
+	}
+	e.stubsUsed["select: every case that can be the first to be ready on the deterministic clock is explored; without the clock every ready case"] = true
+	if len(ready) == 1 {
+		take(st, fr, ready[0])
+		return
+	}
+	if st.clock == nil {
+		for k, rc := range ready {
+			s2, f2 := st, fr
+			if k < len(ready)-1 {
+				s2, f2 = st.fork(), fr.clone()
+				e.stats.States++
+			}
+			take(s2, f2, rc)
+		}
+		return
+	}
+	eff := make([]*Term, len(ready))
+	for k, rc := range ready {
+		eff[k] = st.clock
+		if rc.at != nil {
+			eff[k] = c.Ite(c.BVSlt(st.clock, rc.at), rc.at, st.clock)
+		}
+	}
+	// every case that is (possibly) first is explored: Go chooses among simultaneously ready cases at random
+	var feas []int
+	conds := make([]*Term, len(ready))
+	for k := range ready {
+		first := c.True
+		for j := range ready {
+			if j != k {
+				first = c.And(first, c.BVSle(eff[k], eff[j]))
+			}
+		}
+		conds[k] = first
+		if first.IsTrue() || e.feasible(st, first, "select case is ready first") {
+			feas = append(feas, k)
+		}
+	}
+	for n, k := range feas {
+		s2, f2 := st, fr
+		if n < len(feas)-1 {
+			s2, f2 = st.fork(), fr.clone()
+			e.stats.States++
+		}
+		s2.assume(conds[k])
+		take(s2, f2, ready[k])
+	}
 }
